@@ -3,7 +3,7 @@
    Print Assumptions beneath each.  The model is Model/PropLayer.v: `step`/`run_state` are the
    functions the correspondence check runs (run_case = run_ops (init ..) ops). *)
 From Coq Require Import ZArith List Bool.
-From Mesa Require Import Common.ListX Model.PropLayer Proofs.PropLayerProofs Proofs.PropLayerEmpty.
+From Mesa Require Import Common.ListX Generated.Tables Model.PropLayer Proofs.PropLayerProofs Proofs.PropLayerEmpty.
 Import ListNotations.
 Open Scope Z_scope.
 
@@ -11,16 +11,16 @@ Open Scope Z_scope.
    through either view, bulk set/modify, agents moved ...), for every coordinate and every name:
    reading the cell attribute and reading the layer through the grid give the same answer
    (the same value, or both fail because there is no such layer / the index is out of range). *)
-Theorem C11_one_value : forall dims ops c n,
-  let st := run_state (init true dims) ops in cell_read st c n = layer_read st n c.
+Theorem C11_one_value : forall multi cap dims ops c n,
+  let st := run_state (init true multi cap dims) ops in cell_read st c n = layer_read st n c.
 Proof. exact one_value. Qed.
 Print Assumptions C11_one_value.
 
 (* ... because the grid's layer dict, the PropertyDescriptors on the cell class and
    _mesa_properties never disagree, every attached layer exists and has the grid's shape.
    Holds for both implementations (legacy: only the attached-layer part is non-trivial). *)
-Theorem C11_tables_invariant : forall d dims ops, inv (run_state (init d dims) ops).
-Proof. intros d dims ops. apply run_state_inv. exact (inv_init d dims). Qed.
+Theorem C11_tables_invariant : forall d multi cap dims ops, inv (run_state (init d multi cap dims) ops).
+Proof. intros d multi cap dims ops. apply run_state_inv. exact (inv_init d multi cap dims). Qed.
 Print Assumptions C11_tables_invariant.
 
 (* a write through the cell attribute is read back through the layer (and the cell), and no
@@ -57,6 +57,21 @@ Theorem C11_bulk_modify : forall st n fm f hasval cd st' c,
 Proof. exact modify_cells_spec. Qed.
 Print Assumptions C11_bulk_modify.
 
+(* T1: in the CURRENT source of both implementations the filter stages of select_cells come in
+   the order masks, only_empty, conditions, extreme values (the model runs them in the extracted
+   order, so a reordering in the source breaks this theorem and with it C11_select_exact) ... *)
+Theorem C11_source_select_order :
+  gen_select_order_discrete = [SMasks; SEmpty; SConds; SExts] /\
+  gen_select_order_legacy = [SMasks; SEmpty; SConds; SExts].
+Proof. exact source_select_order. Qed.
+Print Assumptions C11_source_select_order.
+
+(* ... and only_empty and-s an ARRAY into the mask: `self._mesa_property_layers["empty"].data`
+   (not the PropertyLayer object, defect #15) resp. `self.empty_mask` *)
+Theorem C11_source_only_empty_array : gen_select_empty_is_array = (true, true).
+Proof. reflexivity. Qed.
+Print Assumptions C11_source_only_empty_array.
+
 (* select_cells, both implementations, any state: the selected coordinates are exactly the grid
    coordinates that satisfy every mask, the only_empty flag (through the emptiness layer / mask),
    every condition, and - criterion by criterion in dictionary order - hold the highest / lowest
@@ -79,24 +94,39 @@ Print Assumptions C11_list_mask_same.
 (* C18, property-layer sites (add_property_layer clashing with a layer / a cell attribute / of the
    wrong shape, remove_property_layer of a missing layer, set_cell / modify_cell out of bounds or
    with an invalid operation, modify_cells without the value, select_cells with a missing layer or
-   an invalid mode, place_agent on an occupied cell): in every reachable state, whatever call
-   the model rejects leaves the whole state unchanged ... *)
+   an invalid mode, place_agent / move_agent onto an occupied SingleGrid cell, move_relative
+   without a cell in that direction): in every reachable state of a legacy grid or of a cell space
+   without capacity limit, whatever call the model rejects leaves the whole state unchanged ...
+   (the one rejection outside this theorem is "Cell is full", which first executes
+   `self.empty = False`: see C18_proplayer_full_cell below) *)
 Theorem C18_proplayer_atomic : forall st o st' k,
-  reachable st -> step st o = (st', RErr k) -> st' = st.
+  reachable st -> (s_discrete st = true -> s_cap st = 0) -> step st o = (st', RErr k) -> st' = st.
 Proof. exact atomic_reachable. Qed.
 Print Assumptions C18_proplayer_atomic.
 
 (* ... and so does every later observation *)
 Theorem C18_proplayer_atomic_continue : forall st o st' k ops,
-  reachable st -> step st o = (st', RErr k) -> run_ops st' ops = run_ops st ops.
+  reachable st -> (s_discrete st = true -> s_cap st = 0) -> step st o = (st', RErr k) ->
+  run_ops st' ops = run_ops st ops.
 Proof. exact atomic_continue. Qed.
 Print Assumptions C18_proplayer_atomic_continue.
+
+(* ... and in every state reached by a history that does not itself write the "empty" layer, for
+   either implementation and ANY capacity >= 0, EVERY rejection leaves the state identical - also
+   "Cell is full" (place, cell setter / move_to, move_relative into a full cell), whose
+   `self.empty = False` before the raise is a no-op because a full cell is not empty. *)
+Theorem C18_proplayer_full_cell : forall d multi cap dims ops o st' k,
+  (d = true -> 0 <= cap /\ clean ops = true) ->
+  let st := run_state (init d multi cap dims) ops in
+  step st o = (st', RErr k) -> st' = st.
+Proof. exact atomic_clean. Qed.
+Print Assumptions C18_proplayer_full_cell.
 
 (* ---------------- non-vacuity ---------------- *)
 Definition ex_ops : list op :=
   [Create 1 1 1; Create 2 2 16; SetArray (ByName 1) [0; 2; 2; 1]; Place 7 [0; 1];
    ModifyCells (ByName 2) UBin (FAdd 8) true (Some (CGe, 16))].
-Definition ex_st : state := run_state (init true [2; 2]) ex_ops.
+Definition ex_st : state := run_state (init true false 0 [2; 2]) ex_ops.
 
 Example C11_one_value_example :
   cell_read ex_st [1; 0] 1 = Some 2 /\ layer_read ex_st 1 [1; 0] = Some 2 /\
@@ -126,39 +156,74 @@ Example C18_proplayer_atomic_example :
   step ex_st (LayerWrite (ByName 1) [2; 0] 1) = (ex_st, RErr E_INDEX) /\
   step ex_st (ModifyCells (ByName 1) UBin (FAdd 1) false None) = (ex_st, RErr E_VALUE).
 Proof.
-  split; [exists true, [2; 2], ex_ops; reflexivity|]. vm_compute. repeat split.
+  split; [exists true, false, 0, [2; 2], ex_ops; reflexivity|]. vm_compute. repeat split.
 Qed.
 
 (* The built-in emptiness layer: after ANY history that does not itself write to or detach the
-   layer "empty" (agents placed, moved, removed; any other layers created, removed, written, bulk
-   modified; selections), for every cell the layer - read through the grid or through the cell
-   attribute - says "empty" exactly when no agent is in the cell. *)
-Theorem C11_empty_layer_true : forall dims ops c,
-  forallb (fun o => negb (touches_empty o)) ops = true ->
-  valid_coord dims c = true ->
-  let st := run_state (init true dims) ops in
+   layer "empty" - agents placed, moved (cell setter / move_to / move_relative), removed, also into
+   full cells of a capacity-limited space (rejected); any other layers created, removed, written,
+   bulk modified; selections - for every cell the layer, read through the grid or through the
+   cell attribute, says "empty" exactly when no agent is in the cell. *)
+Theorem C11_empty_layer_true : forall multi cap dims ops c,
+  0 <= cap -> clean ops = true -> valid_coord dims c = true ->
+  let st := run_state (init true multi cap dims) ops in
   layer_read st EMPTY c = Some (b2z (negb (occupied (s_agents st) c))) /\
   cell_read st c EMPTY = Some (b2z (negb (occupied (s_agents st) c))).
 Proof. exact empty_layer_true. Qed.
 Print Assumptions C11_empty_layer_true.
 
-(* The legacy SingleGrid mask: after ANY history (no side condition: no operation of the model can
-   write the mask except place/move/remove), empty_mask[c] = (no agent in c) for every cell. *)
-Theorem C11_empty_mask_true : forall dims ops c,
+(* The legacy mask, SingleGrid and MultiGrid (several agents per cell) alike: after ANY history
+   (no side condition: no operation of the model can write the mask except place/move/remove),
+   empty_mask[c] = (no agent in c) for every cell. *)
+Theorem C11_empty_mask_true : forall multi cap dims ops c,
   valid_coord dims c = true ->
-  let st := run_state (init false dims) ops in
+  let st := run_state (init false multi cap dims) ops in
   aget (s_emask st) c = Some (b2z (negb (occupied (s_agents st) c))).
 Proof. exact empty_mask_true. Qed.
 Print Assumptions C11_empty_mask_true.
 
-Example C11_empty_mask_example :
-  let st := run_state (init false [2; 2]) [Place 1 [0; 1]; Place 2 [1; 1]; Place 3 [1; 1]; Move 1 [0; 0]; Remove 2] in
-  avals (s_emask st) = [0; 1; 1; 1] /\ s_agents st = [(1, [0; 0])].
-Proof. vm_compute. split; reflexivity. Qed.
+(* select_cells in terms of ACTUAL emptiness, for every reachable state of either implementation
+   (discrete: the history does not itself write the "empty" layer, capacity >= 0 or none):
+   the selected coordinates are exactly the grid coordinates that satisfy every mask, hold no agent
+   (if only_empty), satisfy every condition and are - criterion by criterion - extreme among those. *)
+Theorem C11_select_exact_actual : forall d multi cap dims ops conds exts masks oe m,
+  (d = true -> 0 <= cap /\ clean ops = true) ->
+  let st := run_state (init d multi cap dims) ops in
+  select_mask st conds exts masks oe = inl m ->
+  forall c, In c (mask_list m) <->
+            (In c (all_coords dims) /\ passes_exts st (passes_actual st masks oe conds) exts c).
+Proof. exact select_exact_actual. Qed.
+Print Assumptions C11_select_exact_actual.
 
+(* MultiGrid: two agents in (1,1); the mask flips only when the last one leaves *)
+Example C11_empty_mask_example :
+  let run ops := run_state (init false true 0 [2; 2]) ops in
+  let ops := [Place 1 [0; 1]; Place 2 [1; 1]; Place 3 [1; 1]; Move 1 [0; 0]; Remove 2] in
+  avals (s_emask (run ops)) = [0; 1; 1; 0] /\ avals (s_emask (run (ops ++ [Remove 3]))) = [0; 1; 1; 1] /\
+  (* SingleGrid: the second agent is refused, moving onto an occupied cell is refused *)
+  map (fun o => snd (step (run_state (init false false 0 [2; 2]) [Place 1 [0; 1]; Place 2 [1; 1]]) o))
+      [Place 3 [1; 1]; Move 1 [1; 1]; Move 1 [0; 1]] = [RErr E_EXC; RErr E_EXC; ROk []].
+Proof. vm_compute. repeat split. Qed.
+
+(* capacity 1: the full cell refuses (place, move_to, move_relative), the layer stays right *)
 Example C11_empty_layer_example :
-  let ops := ex_ops ++ [Place 8 [0; 1]; Move 7 [1; 1]; Remove 8; RemoveLayer 2; Place 9 [1; 1]; Remove 7] in
-  forallb (fun o => negb (touches_empty o)) ops = true /\
-  map (fun c => layer_read (run_state (init true [2; 2]) ops) EMPTY c) (all_coords [2; 2])
-    = [Some 1; Some 1; Some 1; Some 0].
-Proof. vm_compute. split; reflexivity. Qed.
+  let ops := ex_ops ++ [Place 8 [0; 1]; Move 7 [1; 1]; MoveRel 7 [-1; 0] false; MoveRel 7 [-1; -1] false;
+                        Place 8 [0; 0]; Move 8 [0; 1]; RemoveLayer 2; Remove 7] in
+  clean ops = true /\
+  map (fun c => layer_read (run_state (init true false 1 [2; 2]) ops) EMPTY c) (all_coords [2; 2])
+    = [Some 0; Some 1; Some 1; Some 1] /\
+  map snd (s_agents (run_state (init true false 1 [2; 2]) ops)) = [[0; 0]].
+Proof. vm_compute. repeat split. Qed.
+
+Example C11_select_exact_actual_example :
+  let st := run_state (init false true 0 [2; 2]) [NewLayer 1 1 [2; 2] 3; AddLayer 0; Place 1 [0; 0]; Place 2 [0; 0];
+                                                  LayerWrite (ByName 1) [1; 1] 5; Remove 1] in
+  exists m, select_mask st [(1, (CGe, 3))] [(1, 1)] [] true = inl m /\ mask_list m = [[0; 1]; [1; 0]] /\
+            occupied (s_agents st) [0; 0] = true.
+Proof. eexists. vm_compute. repeat split. Qed.
+
+Example C18_proplayer_full_cell_example :
+  let st := run_state (init true false 1 [2; 2]) [Create 1 1 0; Place 1 [0; 0]; Place 2 [0; 1]] in
+  map (fun o => step st o) [Place 3 [0; 0]; Move 2 [0; 0]; MoveRel 2 [0; -1] false; MoveRel 2 [0; 1] false]
+    = [(st, RErr E_EXC); (st, RErr E_EXC); (st, RErr E_EXC); (st, RErr E_VALUE)].
+Proof. vm_compute. reflexivity. Qed.
